@@ -43,6 +43,10 @@ def cases(tier, seed):
     # flip patterns of weight <= t at structured positions
     for mu, delta in ((5, 3), (5, 7), (6, 3), (6, 5), (7, 3), (8, 3), (8, 5)):
         yield f"C09|long-bch|mu={mu},delta={delta}", {"longbch": (mu, delta), "tier": tier}
+    # long low-order Reed-Muller codes (n = 64 .. 256, t up to 127) over a BPSK link with the majority-logic decoder: all messages, patterns of exactly
+    # t flips (prefix, suffix, even positions, odd positions, strided, two halves)
+    for r, m in ((0, 6), (1, 6), (0, 7), (1, 7), (0, 8), (1, 8)):
+        yield f"C09|long-rm|r={r},m={m}", {"longrm": (r, m), "tier": tier}
     # pi/4-QPSK (alternating constellations, symbol-aligned: needs no reference symbol) in the pipeline: several transmissions through the SAME
     # modem objects, in eval and in the default training mode (where the rotation phase is carried from one call to the next), frames of an even
     # and of an odd number of symbols
@@ -55,7 +59,7 @@ def cases(tier, seed):
 
 
 def component_of(p):
-    return "long-bch" if "longbch" in p else p.get("alt") or p.get("pair", "mixing")
+    return "long-bch" if "longbch" in p else "long-rm" if "longrm" in p else p.get("alt") or p.get("pair", "mixing")
 
 
 def build_pair(pr):
@@ -90,6 +94,8 @@ def execute(p, res):
         return long_bch_case(p, res)
     if "alt" in p:
         return alternating_case(p, res)
+    if "longrm" in p:
+        return long_rm_case(p, res)
     if "pairs" in p:
         for pr in p["pairs"]:
             run_pair({"pair": pr, "spec": p["spec"], "tier": p["tier"]}, res)
@@ -152,6 +158,46 @@ def alternating_case(p, res):
                 break
     res.outcome((pr, "pi4qpsk"))
     res.sample({"pair": pr, "n": n, "k": k, "blocks_per_row": blocks})
+
+
+def long_rm_case(p, res):
+    import torch
+    from kaira.channels import LambdaChannel, PerfectChannel
+    from kaira.constraints import IdentityConstraint
+    from kaira.models.channel_code import ChannelCodeModel
+    from kaira.models.fec import decoders as D
+    from kaira.models.fec import encoders as E
+    from kaira.modulations import BPSKDemodulator, BPSKModulator
+    r, m = p["longrm"]
+    cfg = f"r={r},m={m},bpsk"
+    enc = E.ReedMullerCodeEncoder(r, m)
+    dec = D.ReedMullerDecoder(enc, input_type="hard")
+    n, k = int(enc.code_length), int(enc.code_dimension)
+    t = (2 ** (m - r) - 1) // 2
+    msgs = torch.tensor([list(mm) for mm in product([0, 1], repeat=k)], dtype=torch.float32)
+    mod, dem = BPSKModulator(), BPSKDemodulator()
+    pats = {"none": [], "prefix": list(range(t)), "suffix": list(range(n - t, n)), "even": list(range(0, n, 2))[:t], "odd": list(range(1, n, 2))[:t],
+            "stride3": [(3 * i) % n for i in range(t)] if n % 3 else [(3 * i + i // (n // 3)) % n for i in range(t)], "two-halves": list(range(t // 2)) + list(range(n // 2, n // 2 + t - t // 2)),
+            "quarters": [q_ * (n // 4) + i for q_ in range(4) for i in range(t // 4)], "t-1,prefix": list(range(max(t - 1, 0)))}
+    for pname, pat in pats.items():
+        assert len(set(pat)) == len(pat) <= t, pname
+
+        def ch(s_, *a, pat=pat, **k2):
+            s_ = s_.clone()
+            for q_ in pat:
+                s_[..., q_] = -s_[..., q_]
+            return s_
+        try:
+            out = ChannelCodeModel(enc, IdentityConstraint(), mod, LambdaChannel(ch) if pat else PerfectChannel(), dem, dec)(msgs)
+        except Exception as e:  # noqa: BLE001
+            res.viol("long-rm", f"{cfg},{pname}", "raises", f"{type(e).__name__}: {str(e)[:200]}")
+            continue
+        res.ev(msgs.shape[0], nontrivial=msgs.shape[0] if pat else 0, transitions=1)
+        if tuple(out.shape) != tuple(msgs.shape) or not torch.equal(out.to(torch.float32), msgs):
+            i = 0 if tuple(out.shape) != tuple(msgs.shape) else int((out.to(torch.float32) != msgs).any(dim=1).nonzero()[0])
+            res.viol("long-rm", f"{cfg},{pname}", "<=t-flips" if pat else "ideal", f"RM({r},{m}) [n={n}, k={k}, t={t}]: message {msgs[i].tolist()} with {len(pat)} flips ({pname}) came back as {out[i].tolist() if out.dim() == 2 else tuple(out.shape)}", {"pattern": pname})
+    res.outcome(("long-rm", r, m))
+    res.sample({"n": n, "k": k, "t": t, "patterns": len(pats)})
 
 
 def long_bch_case(p, res):
